@@ -112,7 +112,33 @@ def generate(ctx):
     ops = _ops(body[tidx + 1 :], tr, path, defs)
     if "step_due" not in defs:
         raise Untranslatable("training_loop: step condition not found", loop.lineno, path)
+    # routines called from the loop body (checkpointing, logging, validation) must not touch gradients / optimiser
+    cls = pg.find_def(tree, "Engine", path)
+    methods = {n.name: n for n in cls.body if isinstance(n, ast.FunctionDef)}
+    seen, todo = set(), ["checkpoint_model_at_interval", "write_to_logs_at_interval", "validate_model_at_interval", "validation_loop", "write_to_logs", "log_first_training_example_and_model"]
+    while todo:
+        nm = todo.pop()
+        if nm in seen or nm not in methods:
+            continue
+        seen.add(nm)
+        for node in ast.walk(methods[nm]):
+            if isinstance(node, ast.Call):
+                f = ast.unparse(node.func)
+                if any(w in f for w in ("zero_grad", "backward", "_scaler.", "lr_scheduler", "optimizer.step", "optimizer.zero", "clip_grad")) or (f.startswith("self.__optimizer") and not f.startswith("self.__optimizer.param_groups")):
+                    raise Untranslatable("%s touches the optimiser / gradients (%s) although it is called from inside the training loop" % (nm, f), node.lineno, path)
+                if f.startswith("self.") and f[5:] in methods:
+                    todo.append(f[5:])
+    # Engine.train: gradients are cleared (through the optimiser, i.e. for every optimised parameter) before the loop
+    trn = pg.find_def(tree, "Engine.train", path)
+    order = [ast.unparse(x) for x in trn.body]
+    i_zero = [i for i, x in enumerate(order) if x == "self.__optimizer.zero_grad()"]
+    i_loop = [i for i, x in enumerate(order) if "self.training_loop(" in x]
+    clean = bool(i_zero) and bool(i_loop) and i_zero[0] < i_loop[0]
+    for x in order[: (i_loop[0] if i_loop else len(order))]:
+        if ("zero_grad" in x and x != "self.__optimizer.zero_grad()") or "backward(" in x:
+            clean = False
     out = "From DV Require Import Model.C16.\n"
+    out += "Definition train_starts_with_clean_gradients : bool := %s.\n" % ("true" if clean else "false")
     out += "Definition step_due_z (it k : Z) : bool := %s.\n" % defs["step_due"]
     out += "Definition loop_body : list op := [%s].\n" % "; ".join(ops)
     return [pg.write_gen(ctx, "C16_gen", out)]
@@ -247,6 +273,35 @@ def oracles(ctx, deep):
                 if lr_o != lr_r or abs(g_o - want) > 1e-9 * max(1.0, abs(want)):
                     add(Violation("mean-gradient", "optimiser saw gradient %s at lr %s, expected %s at lr %s (%s, clip %s, %s)" % (g_o, lr_o, want, lr_r, call, clip, c.get("opt")), {"call": call, "clip": clip, "opt": c.get("opt"), "observed_steps": r["steps"], "expected_steps": steps_ref}, {"kind": "mean-gradient", "k_gt_1": c["k"] > 1}))
                     break
+    # validation in the middle of accumulation windows must not disturb the gradients
+    for _ in range(ctx.n(6, 60)):
+        k = rng.choice([2, 3, 4])
+        n = rng.randint(8, 14)
+        pool = [-6, -3, 1.5, 3, 6, 12] if k == 3 else [-4, -2, -1, 1, 2, 4, 0.5]
+        c = dict(k=k, n=n, bs=1, grads=[rng.choice(pool) for _ in range(n)], lr=0.5)
+        vs = rng.choice([1, 2, 3, 5])
+        runs += 1
+        try:
+            r = run_impl(c, root, validation_steps=vs)
+        except Exception as e:  # noqa
+            add(Violation("training-runs", "Engine.train with validation raises %s: %s" % (type(e).__name__, str(e)[:120]), {"case": c, "validation_steps": vs}, {"kind": "raises-validation"}))
+            continue
+        w_ref, ep_ref, steps_ref = reference(c)
+        if r["steps"] != steps_ref or r["w"] != w_ref:
+            add(Violation("mean-gradient", "with validation every %d iterations (%d validations ran) the optimiser saw %s, expected %s (gradient_steps=%d, gradients %s)" % (vs, r["validations"], r["steps"], steps_ref, k, c["grads"]), {"case": c, "validation_steps": vs, "observed_steps": r["steps"], "expected_steps": steps_ref}, {"kind": "mean-gradient", "k_gt_1": True, "with_validation": True}))
+    # gradients left over before training (e.g. from a smoke test) must not enter the first step, for every optimised parameter
+    for _ in range(ctx.n(3, 20)):
+        n = rng.randint(2, 5)
+        c = dict(k=1, n=n, bs=1, grads=[rng.choice([1, 2, 4, -2]) for _ in range(n)], lr=0.5)
+        runs += 1
+        try:
+            r = run_impl(c, root, extra_model=True, stale_grads=[rng.choice([3.0, 5.0]), rng.choice([2.0, 7.0])])
+        except Exception as e:  # noqa
+            add(Violation("training-runs", "Engine.train with an additional model raises %s: %s" % (type(e).__name__, str(e)[:120]), {"case": c}, {"kind": "raises-extra"}))
+            continue
+        w_ref, _, steps_ref = reference(c)
+        if r["w"] != w_ref or r["w_extra"] != 0.0:
+            add(Violation("stale-gradients", "gradients present before Engine.train entered the first optimiser step: main parameter %s (expected %s), additional model's parameter %s (expected 0.0)" % (r["w"], w_ref, r["w_extra"]), {"case": c, "observed": [r["w"], r["w_extra"]], "expected": [w_ref, 0.0]}, {"kind": "stale"}))
     shutil.rmtree(root, ignore_errors=True)
     ctx.oracle_runs = runs
     return out
